@@ -73,19 +73,19 @@ P = {
 # generators added after the fourth round of independently seeded changes (DESIGN.md 8.4 (v))
 ADD = {
  "C02": "Pairs with accidental strings of length 0-40 (half on one letter) are sampled; every pair up to 2 accidentals is also asked with the flag omitted, by keyword and as a number.",
- "C04": "Integers of hundreds to tens of thousands of digits are among the out-of-range signature numbers.",
+ "C04": "Integers of hundreds to tens of thousands of digits are among the out-of-range signature numbers. Every diatonic question is preceded by the questions whose note + key concatenation reads the same; unknown keys are given to the step functions twice in a row.",
  "C07": "The library's inversion helpers are compared with list slicing for chords of every size.",
- "C08": "Every attribute name of the theory modules and Hypothesis ASCII text serve as unrecognised numerals.",
+ "C08": "Every attribute name of the theory modules and Hypothesis ASCII text serve as unrecognised numerals. Every depth-0 substitution result is fed to all rules again and the general substitute's diminished substitutes must cycle by minor thirds.",
  "C09": "Integer beat units reach 2^5000.",
- "C10": "Comparison pairs also carry their own velocity and channel (half of them of equal pitch).",
- "C11": "Generated tracks contain chords in non-ascending order and entries held in a user subclass of NoteContainer.",
- "C13": "place_notes_at is also given its beat as an int, including whole-number beats where no entry starts.",
- "C15": "Frequency lookups cover the top of the table and everything above it; notes returned by fft.find_notes are modified between calls; sibling scripts edit the lists / dictionaries instances hold in place (14 classes incl. the percussion instrument).",
- "C16": "Generated scores also contain zero-bar tracks, sounding entries of 0 or 1 tick, unsorted chords and user subclasses of NoteContainer / MidiInstrument.",
+ "C10": "Comparison pairs also carry their own velocity and channel (half of them of equal pitch). The frequency of every spelling is compared with the pitch-number formula at three standard pitches; .name / .octave are assigned directly after the number was read.",
+ "C11": "Generated tracks contain chords in non-ascending order and entries held in a user subclass of NoteContainer. change_octave / octave_up / octave_down also start from octaves below 0 reached by transposition.",
+ "C13": "place_notes_at is also given its beat as an int, including whole-number beats where no entry starts. Every ordered pair of meters is applied to one Bar object; empty lists and empty containers are placed as content.",
+ "C15": "Frequency lookups cover the top of the table and everything above it; notes returned by fft.find_notes are modified between calls; sibling scripts edit the lists / dictionaries instances hold in place (14 classes incl. the percussion instrument). Nested [name, octave(, dynamics)] argument items are compared deeply.",
+ "C16": "Generated scores also contain zero-bar tracks, sounding entries of 0 or 1 tick, unsorted chords and user subclasses of NoteContainer / MidiInstrument. Note-off events are compared including their velocity.",
  "C17": "Generated scores also contain zero-bar tracks, unsorted chords and user subclasses; corrupted files include whole-tag swaps (the other chunk tag, foreign tags).",
  "C18": "Generated music also contains unsorted chords and user subclasses of NoteContainer / MidiInstrument; control changes with non-integer numbers / values just outside 0..128.",
- "C19": "Generated scores also contain unsorted chords and user subclasses of NoteContainer / MidiInstrument.",
- "C20": "Compositions may hold one Bar object in two tracks on different tunings; the best chord fingering returned as a NoteContainer is validated through the notes' string / fret attributes.",
+ "C19": "Generated scores also contain unsorted chords and user subclasses of NoteContainer / MidiInstrument. Metadata texts keep leading / trailing blanks.",
+ "C20": "Compositions may hold one Bar object in two tracks on different tunings; the best chord fingering returned as a NoteContainer is validated through the notes' string / fret attributes. Chord entries in bars may carry a wished (string, fret) position on one note.",
 }
 DEFAULT_NOTE = "Oracle = independent reference model under /verif/vlib/ref; bounds per DESIGN.md section 4."
 
